@@ -26,6 +26,7 @@ type fDoc struct {
 	Exp     *tv     `json:"exp,omitempty"`
 	Iat     *tv     `json:"iat,omitempty"`
 	MaxAge  int     `json:"maxage,omitempty"`
+	Env     string  `json:"env,omitempty"`
 }
 
 // tv: a time claim value relative to now
@@ -84,14 +85,17 @@ func timingCase(d *fDoc) (term string, fails []string) {
 		if ip {
 			claims["iat"] = iv
 		}
-		err := security.VerifC11ValidateTokenTiming(claims, &security.SecurityConfig{TokenMaxAge: d.MaxAge})
-		w := world{MaxAge: d.MaxAge}
+		w := world{MaxAge: d.MaxAge, Env: d.Env}
+		var err error
+		w.withEnv(func() {
+			err = security.VerifC11ValidateTokenTiming(claims, &security.SecurityConfig{TokenMaxAge: d.MaxAge})
+		})
 		valid, known := refTiming(claimsView{Exp: ej, Iat: ij}, now, w.maxAge())
 		if known && valid != (err == nil) {
 			fails = append(fails, fmt.Sprintf("timing: implementation ok=%v, time claims valid=%v", err == nil, valid))
 		}
 		t := newTables(&w)
-		term = "(CTiming " + strings.Join([]string{core.Z(now), core.Z(int64(d.MaxAge)), t.jvTerm(ej), t.jvTerm(ij), core.Bool(err == nil)}, " ") + ")"
+		term = "(CTiming " + strings.Join([]string{core.Z(now), core.Z(int64(d.MaxAge)), lit([]byte(d.Env)), durTerm(d.Env), t.jvTerm(ej), t.jvTerm(ij), core.Bool(err == nil)}, " ") + ")"
 	})
 	return
 }
@@ -217,7 +221,9 @@ func verifyCase(d *fDoc) (term string, fails []string, accepted bool) {
 	stable(func(now int64) {
 		fails = nil
 		tok := fullToken(d.Tok, d.Wrap, now)
-		cl, err := security.VerifyIDToken(tok, d.W.serverCfg())
+		var cl *security.IDTokenClaims
+		var err error
+		d.W.withEnv(func() { cl, err = security.VerifyIDToken(tok, d.W.serverCfg()) })
 		accepted = err == nil
 		exp, known := refVerify(d.W, now, tok)
 		if known && exp != accepted {
@@ -238,7 +244,12 @@ func validateCase(d *fDoc) (term string, fails []string, accepted bool) {
 	stable(func(now int64) {
 		fails = nil
 		sent, _, _ := d.Tok.applied(now)
-		cid, sid, sig, K, err := security.VerifC11ValidateToken(d.Claimed, string(sent), d.W.serverCfg())
+		var cid, sid string
+		var sig, K []byte
+		var err error
+		d.W.withEnv(func() {
+			cid, sid, sig, K, err = security.VerifC11ValidateToken(d.Claimed, string(sent), d.W.serverCfg())
+		})
 		accepted = err == nil
 		rv := refValidate(d.W, now, sent)
 		tb := newTables(d.W)
@@ -375,6 +386,26 @@ func genFuncs(c *core.Ctx, kr *keyring) error {
 			}
 		}
 	}
+	// ---- validateTokenTiming: source of the maximum age (config > environment > default)
+	for _, env := range []string{"600", "0", "600s", "-5", "abc", "1.5", "1m30", "+7", " 600", "3600", "7200", "10m", "99999999999999999999", "9223372036"} {
+		for _, cfg := range []int{0, 300} {
+			w := world{MaxAge: cfg, Env: env}
+			ages := []int64{1, 2, 6, 7, 8, 90, 91, 299, 300, 301, 599, 600, 601, 2000, 3599, 3600, 3601, 5000, 7200, 7201}
+			if ma := w.maxAge(); ma > 0 {
+				ages = append(ages, ma-1, ma, ma+1)
+			}
+			for k, age := range ages {
+				if c.Quick() && cfg != 0 && k%3 != 0 {
+					continue
+				}
+				d := &fDoc{Kind: "timing", Exp: &tv{Kind: "f64", Off: 1000}, Iat: &tv{Kind: "f64", Off: -age}, MaxAge: cfg, Env: env}
+				term, fails := timingCase(d)
+				emit(d, term, fails)
+				c.Count("func:timing:env")
+				c.Nontrivial(fmt.Sprintf("te|%s|%d|%d", env, cfg, age))
+			}
+		}
+	}
 	// ---- loadSigningKey
 	{
 		worlds := []world{kr.w0, {Pool: nil, Named: kr.w0.Named}, {Pool: []byte{}, Named: map[string][]byte{}}, {Pool: []byte{0x11}, Named: kr.w0.Named}}
@@ -429,6 +460,17 @@ func genFuncs(c *core.Ctx, kr *keyring) error {
 			ma := w.maxAge()
 			addT(fmt.Sprintf("age=max%+d", d), func(t *tokSpec) { t.IatOff = -(ma + d) }, w)
 		}
+	}
+	envWorlds := map[string]*world{}
+	for _, v := range envAgeCases {
+		v := v
+		key := fmt.Sprintf("%s|%d", v.env, v.cfg)
+		if envWorlds[key] == nil {
+			w := kr.w0
+			w.MaxAge, w.Env = v.cfg, v.env
+			envWorlds[key] = &w
+		}
+		addT(fmt.Sprintf("env-%q-cfg%d-age%d", v.env, v.cfg, v.age), func(t *tokSpec) { t.IatOff, t.ExpOff = -v.age, 9000 }, envWorlds[key])
 	}
 	for _, v := range []struct{ name, pl string }{
 		{"no-exp", `{"iat":%IAT%,"sub":"alice@pool.example"}`},
